@@ -76,6 +76,19 @@ def space_for_count(n):
     raise Unsupported("array allocated with a symbolic length that is not the row count of a known table")
 
 
+def _mentions(e, v):
+    stack, seen = [e], set()
+    while stack:
+        x = stack.pop()
+        if x.get_id() in seen:
+            continue
+        seen.add(x.get_id())
+        if x.eq(v):
+            return True
+        stack.extend(x.children())
+    return False
+
+
 def _is_int_type(t):
     return t is int or t in ("int", "int64", "int32") or getattr(t, "__name__", "") in ("int64", "int32", "int_", "_b_int", "int", "intc")
 
@@ -212,6 +225,12 @@ class GVec(_Generic):
             raise Unsupported("membership of a foreign value in a column's key set")
         return KeySet(member, own)
     target_space = None  # for vectors of row positions into another table (KD-tree results, arange)
+
+    def __sym_isinstance__(self, ts):
+        import numpy as np
+        if self.kind == "array":
+            return any(t is np.ndarray for t in ts)
+        return any(getattr(t, "__name__", "") == "Series" for t in ts)
 
     def __getitem__(self, k):
         if isinstance(k, GVec) and isinstance(k.val, SV) and k.val.isint:
@@ -637,7 +656,17 @@ class _ILoc:
             raise Unsupported(f"iloc[{type(r).__name__}]")
         if isinstance(c, slice) and c == slice(None):
             return f
+        if isinstance(c, slice) and all(isinstance(x, int) or x is None for x in (c.start, c.stop)) and c.step in (None, 1):
+            cs = f.cols[c]
+            return GFrame(cs, {k: f.row[k] for k in cs}, f.space, f.present)
         raise Unsupported("iloc column selection")
+
+    def __setitem__(self, k, v):
+        if isinstance(k, tuple) and isinstance(k[0], slice) and k[0] == slice(None) and isinstance(k[1], slice):
+            cs = self.f.cols[k[1]]
+            self.f.set_cells(slice(None), list(cs), v)
+            return
+        raise Unsupported("iloc assignment form")
 
 
 class SiteList(_Generic):
@@ -678,6 +707,26 @@ class GFrame(_Generic):
         if self.perm is not None:
             return PermCols(self)
         return list(self.cols)
+
+    @columns.setter
+    def columns(self, names):
+        names = list(names)
+        if len(names) != len(self.cols):
+            raise ModelRaise("ValueError", f"Length mismatch: Expected axis has {len(self.cols)} elements, new values have {len(names)} elements")
+        self.row = {n: self.row[c] for n, c in zip(names, self.cols)}
+        self.cols = names
+
+    def rename(self, columns=None, **k):
+        m = columns or {}
+        cols = [m.get(c, c) for c in self.cols]
+        return GFrame(cols, {m.get(c, c): v for c, v in self.row.items()}, self.space, self.present)
+
+    def dropna(self, axis=0, how="any", **k):
+        if axis == 1 and how == "all":
+            keep = [c for c in self.cols if c not in getattr(self, "nan_cols", ())]
+            r = GFrame(keep, {c: self.row[c] for c in keep}, self.space, self.present)
+            return r
+        raise Unsupported("dropna form")
     @property
     def shape(self): return (self.space.n, len(self.cols))
     def __sym_len__(self): return self.space.n
@@ -760,6 +809,15 @@ class GFrame(_Generic):
         """value to be written into `ncols` columns of the generic row -> list of per-column values"""
         import numpy as np
         if isinstance(v, GVec):
+            if v.kind == "array" and v.space.pos_id != self.space.pos_id:
+                # a plain array is assigned positionally: lengths must agree, element i goes to row i
+                _len_check(self.space, v.space.n)
+                pv, pf = RowPos(v.space).val.t, RowPos(self.space).val.t
+                if isinstance(v.val, SV) and _mentions(v.val.t, pv):
+                    return [SV(z3.substitute(v.val.t, (pv, pf)))] * ncols
+                if not isinstance(v.val, SV):
+                    return [v.val] * ncols
+                _same_space(self.space, v.space, what)
             _same_space(self.space, v.space, what, labels=(v.kind == "series"))
             return [v.val] * ncols
         if isinstance(v, RowArr):
@@ -810,6 +868,8 @@ class GFrame(_Generic):
             mask = to_bool(r.val)
         else:
             raise Unsupported(f"row key {type(r).__name__} in assignment")
+        nan_cols = set(getattr(self, "nan_cols", ()))
+        self.nan_cols = nan_cols - set(cs) if mask is None else nan_cols
         for k, nv in zip(cs, vals):
             if k not in self.row:
                 if mask is not None:
@@ -828,6 +888,7 @@ class GFrame(_Generic):
             if k not in self.row:
                 self.cols.append(k)
             self.row[k] = _guarded(vals[0], self.row.get(k, vals[0]))
+            self.nan_cols = set(getattr(self, "nan_cols", ())) - {k}
             if getattr(v, "objdtype", False) or isinstance(vals[0], str) or type(vals[0]).__name__ == "StrChoice":
                 self.objcols = set(getattr(self, "objcols", ())) | {k}
             return
@@ -837,6 +898,7 @@ class GFrame(_Generic):
                 if kk not in self.row:
                     self.cols.append(kk)
                 self.row[kk] = vv
+            self.nan_cols = set(getattr(self, "nan_cols", ())) - set(k)
             return
         raise Unsupported("frame setitem")
 
